@@ -89,7 +89,13 @@ def specs_for(ctx):
                 mods = mods + [tuple(p) + ("ghost",)]
             items += viz_items(rng, mods, k0=k, with_rename=(k == 0), render=rnd)
         items.append({"op": "viz", "rid": "P", "aliases": None, "kw": _kw(rng), "spacing": rng.choice([None, 1])})
-        specs.append({"driver": "labels", "world": w.json(), "render": rnd, "items": items})
+        spec = {"driver": "labels", "world": w.json(), "render": rnd, "items": items}
+        roll = rng.random()
+        if roll < 0.3:        # modules listed in another order, parent packages left implicit
+            spec["order_seed"] = rng.randint(0, 10 ** 6)
+        elif roll < 0.5:      # a level-limited architecture: aliases for modules below the limit name no module
+            spec["level_limit"] = rng.randint(1, 2)
+        specs.append(spec)
     meta["random_worlds"] = n_worlds
     return specs, meta
 
